@@ -215,6 +215,12 @@ varintWidth varintExternalSignedEncoding(int64_t value) {
     return encoding;
 }
 
+varintWidth varintExternalUnsignedLen(uint64_t value) {
+    varintWidth encoding;
+    varintExternalUnsignedEncoding(value, encoding);
+    return encoding;
+}
+
 varintWidth varintExternalPut(void *p, uint64_t v) {
     if (endianIsLittle()) {
         return varintExternalCopyUsedBytesLittleEndian_(p, v);
